@@ -163,6 +163,9 @@ class Context(object):
 
   def finish(self):
     edir = EVIDENCE if not self.pid.startswith("X") else os.path.join(VERIF, "evidence_extra")
+    if os.path.realpath(REPO) != "/repo" or os.environ.get("VERIF_EVIDENCE_DIR"):
+      # a run against a scratch copy (self-tests, seeded changes) is not evidence about /repo
+      edir = os.environ.get("VERIF_EVIDENCE_DIR") or os.path.join(VERIF, ".work", "evidence-scratch")
     os.makedirs(edir, exist_ok=True)
     rc = 0
     for w, n in sorted(self.known_hits.items()):
